@@ -152,5 +152,39 @@ PROPS["C18"] = {
     "assumptions": ["the four documented commands (no-op, next, in, out); bounded recursion depth"],
 }
 
+PROPS["C20"] = {
+    "lean_module": "LispModel.Props.C20",
+    "engines": [{"name": "call", "quick": 20000, "thorough": 300000}],
+    "technique": "Lean 4 theorems about the model of lib/call (name derivation, bound selection, _args/_args_ctx, reflect.Call's checks, "
+                 "adapters, _recover) against the binder contract + differential correspondence of call.Call/CallOverrideFN",
+    "level_text": "Kernel-checked: entered <-> admissible, arguments verbatim, result mapping, panic wrapping, name derivation, registration "
+                  "totality for all signature shapes, declarations and argument lists of the model; the model is tied to lib/call/call.go by "
+                  "registering generated Go functions (432 named + 432 closures in two packages, one import path with and one without a dot, "
+                  "ctx x 0-3 fixed x variadic x 0-2 results x int/string/interface parameters) through both entry points in a fresh environment "
+                  "and calling them with 0...max+2 arguments of every kind incl. nil (and 998...1002 arguments around the default maximum); "
+                  "entered?/arguments seen/result or error class, registration panics, error texts, the registered symbol and the _PACKAGES_ key "
+                  "are diffed with the model and with the contract on every run.",
+    "level_note": "On the unchanged tree the contract is violated in two classes (kept visible as binder_contract_statement / "
+                  "registration_total_statement, proved false; the *_partial theorems exclude exactly these classes): "
+                  "(i) _args_ctx subtracts the context parameter from bounds that do not count it (declared bounds, and the default maximum 1000) "
+                  "[keys call.ctx.declared-bounds-off-by-one, call.ctx.unlimited-bound-off-by-one]; "
+                  "(ii) CallOverrideFN with a named function of a package whose import path has no dot panics at registration "
+                  "[key call.override.dotless-package-regpanic]. "
+                  "Trusted: Lean kernel; the hand-written mirror of call.go and the oracle of reflect.Value.Call's arity/assignability checks "
+                  "(both checked by correspondence, not assumed); harness generators and recorder.",
+    "assumptions": [
+        "parameter types: interfaces without methods (types.MalType) or concrete types (int, string exercised); results follow the convention "
+        "(none | error | (T, error))",
+        "the callee does not panic(nil) (its meaning depends on the go line of the main module); the context handed to Func.Fn is not nil",
+        "'unlimited' is the binder's constant 1000 (unlimitedArgments): a variadic function without a declared maximum accepts at most 1000 "
+        "lisp arguments by contract; longer lists (e.g. apply on >1000 elements) are rejected with a count error",
+        "function and package names are ASCII (strings.ToLower modelled on ASCII); _PACKAGES_ is unbound or a hash-map at registration",
+    ],
+    "explanation": "invoke/register (Lean mirror of lib/call) proved to enter the Go function iff the call is admissible (count within the "
+                   "declared-else-derived bounds in lisp arguments, every argument assignable), with verbatim arguments, conventional result "
+                   "mapping, wrapping of callee panics and the hyphenated lower-case name, outside two baseline defect classes that are proved "
+                   "as counterexamples; tie: engine call",
+}
+
 # properties not claimed at this commit, with the reason
 NOT_CLAIMED = {}
